@@ -37,7 +37,10 @@ def shards(tier, seed, prop):
 
 
 LARGE_SOURCES = [('dict', 257, 'pickle'), ('list', 300, 'pickle'), ('list', 256, 'wu'),
-                 ('dict', 1000, 'copy')]
+                 ('dict', 1000, 'copy'), ('list', 129, 'pickle'), ('dict', 128, 'copy'),
+                 ('list', 513, 'wu')]
+# plus, per seed, two more lengths next to a power of two (2^7 .. 2^11)
+BOUNDARY = sorted({2 ** k + d for k in range(7, 12) for d in (-1, 0, 1, 2)})
 
 
 def iter_programs(spec, prop):
@@ -52,7 +55,9 @@ def iter_programs(spec, prop):
     elif spec['what'] == 'large':
         rng = rng_for(spec['seed'], prop, 'large')     # same plan in every shard
         cnt = 0
-        for src in LARGE_SOURCES:
+        extra = [('list', BOUNDARY[(3 * spec['seed']) % len(BOUNDARY)], 'pickle'),
+                 ('dict', BOUNDARY[(3 * spec['seed'] + 7) % len(BOUNDARY)], 'pickle')]
+        for src in LARGE_SOURCES + extra:
             alpha = programs.alphabet(src[1], src[0])
             plan = [[op] for op in alpha]
             plan += [[rng.choice(alpha), rng.choice(alpha)] for _ in range(spec['pairs'])]
